@@ -131,7 +131,12 @@ def check_l2t(spec, ctx):
     kw = l2t_kwargs(spec)
     exp = ref_label_to_tags(spec)
     nondefault = sum(1 for k in ("tag_fn", "tag_mapping", "term_mapping", "key_mapping", "key", "term", "fallback", "empty_labels") if spec[k] not in (None, "none"))
+    maps_before = {k: dict(v) for k, v in kw.items() if isinstance(v, dict)}
     got = ctx.call(spec, f"label_to_tags({spec['label']!r}, {sorted(kw)})", label_to_tags, spec["label"], **kw)
+    if {k: dict(v) for k, v in kw.items() if isinstance(v, dict)} != maps_before:
+        ctx.fail("label_to_tags modified a mapping argument", spec, None, None, kind="input_mutated")
+    if label_to_tags(spec["label"], **kw) != got:
+        ctx.fail("label_to_tags gives different tags when called again", spec, None, None, kind="not_repeatable")
     unspecified = isinstance(exp, tuple)
     ctx.case(spec, nontrivial=nondefault >= 2, labels=["unspecified" if unspecified else "specified", f"opts={min(nondefault, 4)}", "empty" if exp == [] else "tags"], out={"n": len(got)})
     if not isinstance(got, list):
@@ -218,7 +223,13 @@ def check_t2l(spec, ctx):
     exp = ref_label_from_tags(spec, tags)
     nondefault = sum(1 for k in ("select_by_key", "index", "separator", "empty_label", "value_only", "label_mapping") if spec[k] is not None) + int(spec["seq_label_fn"]) + int(spec["label_fn"])
     ctx.case(spec, nontrivial=nondefault >= 2, labels=[f"ntags={len(tags)}", f"opts={min(nondefault, 4)}", "select" if spec["select_by_key"] is not None else ("index" if spec["index"] is not None else "join")])
+    from vf.core import snapshot
+
+    before = (snapshot(tags), sorted(kw))
     got = ctx.call(spec, f"label_from_tags({len(tags)} tags, {sorted(kw)})", label_from_tags, tags, **kw)
+    ctx.unchanged(spec, "label_from_tags: the tag list", before[0], tags)
+    if label_from_tags(tags, **kw) != got:
+        ctx.fail("label_from_tags gives a different label when called again", spec, None, got, kind="not_repeatable")
     if got != exp:
         ctx.fail(f"label_from_tags({[(t.term.label, t.value) for t in tags]}, options { {k: v for k, v in spec.items() if k != 'tags' and v not in (None, False)} }) = {got!r}, the documented cascade gives {exp!r}", spec, got, exp, kind="cascade")
 
